@@ -1537,6 +1537,9 @@ def _p_asarray(it, args, kwargs, site):
     x = args[0]
     if isinstance(x, T.Term) and not kwargs and len(args) == 1:
         return x
+    if isinstance(x, (list, tuple)):
+        # a literal table: remember its (static) leading length so that python-level iteration works
+        return T.mk("np.asarray", tuple(args), kwargs, origin=site, meta={"length": len(x)})
     return _MISSING
 
 
